@@ -1371,6 +1371,8 @@ def set_instantaneous_absorption(model: Model):
             )
             model = remove_unused_parameters_and_rvs(model)
         if has_zero_order_absorption(model):
+            statements = model.statements
+            cs = get_and_check_odes(model)
             dose_comp = cs.dosing_compartments[0]
             old_symbols = dose_comp.free_symbols
             cb = CompartmentalSystemBuilder(cs)
